@@ -526,16 +526,16 @@ class C16(Check):
         for (ops, meta), good in zip(hist, ok):
             got, sl = im.ops(ops)
             w = {'ops': [[op[0]] + [x if not isinstance(x, list) else [[t[0], t[1]] for t in x] for x in op[1:]]
-                         for op in ops], 'texts': [m.get('text') for m in meta]}
+                         for op in ops], 'meta': [{'text': m.get('text'), 'members': m.get('members')} for m in meta]}
             interesting = any(r.startswith('RAISE') for r in got) or any(
                 got[i] == got[i - 1] for i in range(1, len(got)))
             ctx.case(key=('list', tuple(enc_op(op) for op in ops)), nontrivial=interesting or len(ops) >= 3,
-                     kind='list-history', sample={'ops': w['texts'], 'impl': got[-1][:120]})
+                     kind='list-history', sample={'ops': [m.get('text') for m in meta], 'impl': got[-1][:120]})
             if good and ctx.model_ok:
                 m = next(replies).split(' | ')
                 if m != got:
                     k = next((i for i, (a, b) in enumerate(zip(m, got)) if a != b), min(len(m), len(got)))
-                    ctx.disagree('SelectorList history', dict(w, first_difference_at_op=k), got, m)
+                    ctx.disagree('SelectorList history', cut(w, k), got[:k + 1], m[:k + 1])
             self.oracle_list(ctx, im, ops, meta, w)
 
     def oracle_list(self, ctx, im, ops, meta, w):
@@ -556,10 +556,10 @@ class C16(Check):
             except IndexError:
                 if op[0] in ('idx', 'del') and not (-len(before) <= op[1] < len(before)):
                     continue
-                ctx.violate('list operation raises IndexError only for an index out of range', dict(w, at_op=k), None)
+                ctx.violate('list operation raises IndexError only for an index out of range', cut(w, k), None)
                 continue
             except Exception as e:          # noqa: BLE001
-                ctx.violate('list operations on tokenizer output do not raise', dict(w, at_op=k), repr(e))
+                ctx.violate('list operations on tokenizer output do not raise', cut(w, k), repr(e))
                 continue
             after = [s.selectorText for s in sl]
             if op[0] == 'set':
@@ -575,9 +575,9 @@ class C16(Check):
                 if any(x is None for x in singles):
                     if after != before:
                         ctx.violate('a selector list with an invalid member is rejected as a whole (old value kept)',
-                                    dict(w, at_op=k), {'before': before, 'after': after})
+                                    cut(w, k), {'before': before, 'after': after})
                 elif after != singles:
-                    ctx.violate('a selector list keeps its members in source order', dict(w, at_op=k),
+                    ctx.violate('a selector list keeps its members in source order', cut(w, k),
                                 {'members_alone': singles, 'list': after})
             elif op[0] == 'app':
                 if len(m['members']) == 1 and m['members'][0] is not None and after != before:
@@ -585,25 +585,25 @@ class C16(Check):
                     rest = [x for x in before if x != new]
                     if after != rest + [new]:
                         ctx.violate('appending moves an already present selector to the end (no duplicate); the '
-                                    'others keep their order', dict(w, at_op=k), {'before': before, 'after': after})
+                                    'others keep their order', cut(w, k), {'before': before, 'after': after})
                 if len(m['members']) == 1 and m['members'][0] is None and after != before:
-                    ctx.violate('appending an invalid selector changes nothing', dict(w, at_op=k),
+                    ctx.violate('appending an invalid selector changes nothing', cut(w, k),
                                 {'before': before, 'after': after})
             elif op[0] == 'del':
                 i = op[1]
                 exp = list(before)
                 del exp[i]
                 if after != exp:
-                    ctx.violate('del list[i] removes exactly that member', dict(w, at_op=k), {'before': before, 'after': after})
+                    ctx.violate('del list[i] removes exactly that member', cut(w, k), {'before': before, 'after': after})
             elif op[0] == 'idx':
                 if after != before:
                     exp = list(before)
                     exp[op[1]] = after[op[1]]
                     if after != exp:
-                        ctx.violate('list[i] = selector replaces exactly that member', dict(w, at_op=k),
+                        ctx.violate('list[i] = selector replaces exactly that member', cut(w, k),
                                     {'before': before, 'after': after})
             if len(sl) != sl.length or sl.selectorText != ', '.join(after):
-                ctx.violate('length / selectorText / iteration of a selector list agree', dict(w, at_op=k),
+                ctx.violate('length / selectorText / iteration of a selector list agree', cut(w, k),
                             {'length': sl.length, 'text': sl.selectorText, 'members': after})
 
     # -- boundary: exhaustive small cases ------------------------------------------------------------
@@ -687,7 +687,8 @@ class C16(Check):
                 m = ctx.driver(['ops ' + ' '.join(enc_op(op) for op in ops)])[0].split(' | ')
                 if m != got:
                     ctx.disagree('SelectorList history', w, got, m)
-                self.oracle_list(ctx, im, ops, [{'text': t, 'members': [t]} for t in w.get('texts', [None] * len(ops))], w)
+                if 'meta' in w:
+                    self.oracle_list(ctx, im, ops, w['meta'], w)
                 done = True
             elif 'tokens' in w:
                 c = {'kind': 'replay', 'ns': w.get('ns', {}), 'toks': [tuple(t) + (1, 1) for t in w['tokens']],
@@ -763,6 +764,11 @@ def single_negation_args(seq, comment_cls):
             i = j
         i += 1
     return True
+
+
+def cut(w, k):
+    """a list-history witness shortened to the operations up to and including the failing one"""
+    return {'ops': w['ops'][:k + 1], 'meta': w['meta'][:k + 1], 'at_op': k}
 
 
 def recount(seq, comment_cls):
